@@ -43,11 +43,17 @@ impl<'a> RefEval<'a> {
             world,
             ann,
             args,
-            budget: 300_000,
+            budget: 400_000,
             multi_walk: false,
             fold_sizes: BTreeMap::new(),
             missing_optional_seen: false,
         }
+    }
+
+    /// size of an environment including everything folded into it (what a clone of it costs)
+    fn env_weight(env: &Env) -> usize {
+        1 + env.bind.len()
+            + env.folds.values().map(|f| f.as_ref().map(|v| v.iter().map(Self::env_weight).sum::<usize>()).unwrap_or(0)).sum::<usize>()
     }
 
     fn spend(&mut self, n: usize) -> Result<(), Overflow> {
@@ -87,7 +93,10 @@ impl<'a> RefEval<'a> {
         outer: &[&Env],
     ) -> Result<Vec<Env>, Overflow> {
         let mut out = vec![];
-        self.spend(candidates.len())?;
+        // weighted by size: environments carry their folded sub-results and are cloned per candidate, so a plain count
+        // lets a few pathological cases (found by the coverage-guided campaigns) take tens of seconds and gigabytes
+        let weight: usize = candidates.iter().map(|(e, _)| Self::env_weight(e)).sum();
+        self.spend(weight)?;
         for (mut env, b) in candidates {
             match b {
                 None => {
@@ -139,7 +148,7 @@ impl<'a> RefEval<'a> {
     }
 
     fn walks(&mut self, id: u32, child: &ANode, depth_left: u32, out: &mut Vec<u32>) -> Result<(), Overflow> {
-        self.spend(1)?;
+        self.spend(4)?;
         out.push(id);
         if depth_left == 0 {
             return Ok(());
